@@ -95,7 +95,7 @@ func VerifC07_Topology() {
 	}
 	vTopologyInvariants(s, "C07.topology.pre")
 
-	op := verifrt.Choice("op", 7)
+	op := verifrt.Choice("op", 8)
 	switch op {
 	case 0:
 		must(s.DeleteService(next(), "n1", "p1", nil, ""))
@@ -121,8 +121,11 @@ func VerifC07_Topology() {
 		verifrt.Assume(len(errs) > 0)
 		vTopologyInvariants(s, "C07.topology.after-failed-transaction")
 		must(s.DeleteService(next(), "n1", "p1", nil, ""))
+	case 7: // the instance p1 is registered again as another kind of mesh service
+		kind := []structs.ServiceKind{structs.ServiceKindMeshGateway, structs.ServiceKindIngressGateway, structs.ServiceKindTypical}[verifrt.Choice("p1.new-kind", 3)]
+		must(s.EnsureService(next(), "n1", &structs.NodeService{Kind: kind, ID: "p1", Service: "p1", Port: 21000}))
 	}
-	name := []string{"delete-p1", "delete-p2", "p1-new-upstreams", "p1-new-destination", "delete-node", "same-id-other-node", "failed-txn-then-delete-p1"}[op]
+	name := []string{"delete-p1", "delete-p2", "p1-new-upstreams", "p1-new-destination", "delete-node", "same-id-other-node", "failed-txn-then-delete-p1", "p1-new-kind"}[op]
 	vTopologyInvariants(s, "C07.topology."+name)
 	vUsageInvariants(s, "C07.topology."+name)
 	verifrt.Reached("end")
